@@ -163,9 +163,28 @@ pub unsafe extern "C" fn munmap(addr: *mut libc::c_void, len: libc::size_t) -> i
     r
 }
 
+/// A range whose protection can never be changed, by any thread, armed or not (a read-only shared
+/// file mapping behaves like this): (lo, hi), 0 = none.
+static PERM_DENY_LO: std::sync::atomic::AtomicU64 = std::sync::atomic::AtomicU64::new(0);
+static PERM_DENY_HI: std::sync::atomic::AtomicU64 = std::sync::atomic::AtomicU64::new(0);
+pub static PERM_DENY_FIRED: std::sync::atomic::AtomicU64 = std::sync::atomic::AtomicU64::new(0);
+pub fn set_permanent_deny(r: Option<(u64, u64)>) {
+    let (lo, hi) = r.unwrap_or((0, 0));
+    PERM_DENY_LO.store(lo, std::sync::atomic::Ordering::SeqCst);
+    PERM_DENY_HI.store(hi, std::sync::atomic::Ordering::SeqCst);
+}
+
 #[no_mangle]
 pub unsafe extern "C" fn mprotect(addr: *mut libc::c_void, len: libc::size_t, prot: i32) -> i32 {
     let armed = ARMED.try_with(|a| a.get()).unwrap_or(false);
+    {
+        let (lo, hi) = (PERM_DENY_LO.load(std::sync::atomic::Ordering::SeqCst), PERM_DENY_HI.load(std::sync::atomic::Ordering::SeqCst));
+        if hi > lo && (addr as u64) < hi && (addr as u64 + len as u64) > lo {
+            PERM_DENY_FIRED.fetch_add(1, std::sync::atomic::Ordering::SeqCst);
+            set_errno(libc::EACCES);
+            return -1;
+        }
+    }
     if armed {
         let inject = FAULTS.with(|f| {
             let mut f = f.borrow_mut();
